@@ -1272,3 +1272,9 @@ MODELS_NORM = [(re.compile(r'BTreeSet::<&?Url>::insert'), set_insert)] + MODELS_
 
 # ------------------------------------------------------------------ calling a value of a generic `impl FnOnce(..)` parameter: the value is a closure (or fn item) at run time
 MODELS_NORM = [(re.compile(r"<impl Fn(Mut|Once)?\(.*\).* as Fn(Mut|Once)?<.*>>::call(_mut|_once)?"), closure_call)] + MODELS_NORM
+
+# ------------------------------------------------------------------ Url == Url (by value): identity of the atom
+def url_eq_val(eng, c, a, g):
+    r = EQ(uid(eng, a[0]), uid(eng, a[1]))
+    return NOT(r) if c.rstrip().endswith('::ne') else r
+MODELS_NORM = MODELS_NORM + [(re.compile(r'<Url as PartialEq>::(eq|ne)'), url_eq_val)]
